@@ -243,8 +243,18 @@ def r08_7(run, model):
     run.rule("R08.7", "`go f` accepts both representations of a callable (closure struct with an apply function, plain function value): "
                       "in compile_go the Option answered by the closure-apply lookup is consumed with a branch for None, never unwrapped")
     f = model.fn("compile_go", GOC)
-    look = [c for c in S.walk(f.body) if c["k"] == "Call" and S.callee_name(c) in ("find_closure_apply_fn",)] + \
-           [c for c in S.walk(f.body) if c["k"] == "MethodCall" and c["method"] == "closure_apply_method"]
+
+    def lookups(g):
+        return [c for c in S.walk(g.body) if c["k"] == "Call" and S.callee_name(c) in ("find_closure_apply_fn",)] + \
+               [c for c in S.walk(g.body) if c["k"] == "MethodCall" and c["method"] == "closure_apply_method"]
+    look = lookups(f)
+    if not look:
+        # the lookup may live in a helper compile_go calls (one level)
+        for g in model.fns(GOC):
+            if g.body is not None and g is not f and any(True for _ in S.calls(f.body, g.name)) and lookups(g):
+                f = g
+                look = lookups(g)
+                break
     if not look:
         raise AnalysisIncomplete("compile_go: closure-apply lookup not found")
     par = S.Parents(f.body)
